@@ -17,8 +17,8 @@ def check(ctx):
         args = ['--bound', str(bound), '--jobs', str(min(vlib.NJOBS, 8 if ctx.tier == 'quick' else 12)), '--outdir', vlib.OUT, '--deadline', str(deadline)]
         ctx.run_engine(exe, args, label='rwlock-%s-b%d' % (sets.replace(',', '+'), bound), timeout=deadline + 600, env=env)
     if ctx.tier == 'quick':
-        leg('pairs,small3', 2, 50)
-        leg('quick3', 1, 18)
+        leg('pairs,small3', 2, 45)
+        leg('quick3', 1, 15)
     else:
         leg('pairs', 4, 180)
         leg('small3,big3', 3, 300)
